@@ -160,7 +160,12 @@ class NewGen:
                         x["get"] = x["set"] = False
                 self.used.setdefault(depth, set()).add(n2)
                 members.insert(i + 1, twin)
-        return {"name": name, "tparams": tparams, "typedoc": None, "members": members}
+        out = {"name": name, "tparams": tparams, "typedoc": None, "members": members}
+        # the struct embeds a POINTER TO ITSELF (`type T struct{ *T; … }`, repaired by 0c9404e): the generator passes it by --
+        # its promoted fields are hidden by the struct's own -- so the model tree simply does not contain it
+        if self.rng.random() < opts.get("selfembed", 0.0):
+            out["selfembed"] = self.rng.choice(["first", "last"])
+        return out
 
     def top(self, name="T", **opts):
         o = {"maxfields": 5, "maxdepth": 3, "new": self.rng.choice([0, 0, 0.3, 0.6]), "def": 0.25}
@@ -266,6 +271,12 @@ def render_struct(s):
         if s["typedoc"] != "none-doc":
             lines.append("// shoot: %s" % s["typedoc"])
     lines.append("type %s%s struct {" % (s["name"], tp))
+    selfline = None
+    if s.get("selfembed") and s.get("pkg") != "sub":
+        targs = "[" + ", ".join(n for g, _ in s["tparams"] for n in g) + "]" if s.get("tparams") else ""
+        selfline = "\t*%s%s" % (s["name"], targs)
+        if s["selfembed"] == "first":
+            lines.append(selfline)
     prev_group = None
     for m in s["members"]:
         if m["k"] == "f" and m.get("group") is not None and m.get("group") == prev_group:
@@ -312,6 +323,8 @@ def render_struct(s):
                 lines.append("\t// shoot: new")
             targs = "[" + ", ".join(m["targs"]) + "]" if m.get("targs") else ""
             lines.append("\t%s%s%s%s" % ("*" if m["ptr"] else "", "sub." if m.get("pkg") == "sub" else "", m["decl"]["name"], targs))
+    if selfline and s["selfembed"] == "last":
+        lines.append(selfline)
     lines.append("}")
     return "\n".join(lines)
 
@@ -461,6 +474,8 @@ def count_features(s, feats=None, depth=0):
 
     def inc(k):
         feats[k] = feats.get(k, 0) + 1
+    if s.get("selfembed"):
+        inc("self-embed")
     for m in s["members"]:
         if m["k"] == "f":
             if m.get("new"):
